@@ -43,18 +43,10 @@ func init() {
 			e.discharged++
 			return nil
 		},
-		// verifNoRawFlow(render, x, what): byte-provenance obligation (see harness/api.go)
-		pp + "verifNoRawFlow": func(e *Exec, a []Value) Value {
-			res := e.call(a[0], []Value{a[1]}, 0).(Tuple)
-			if ok := res[1].(*Term); !ok.IsConst() || ok.V == 0 {
-				if !ok.IsConst() {
-					e.cut("verifNoRawFlow: symbolic ok flag")
-				}
-				return nil
-			}
-			out := res[0].(Str)
-			what := a[2].(Str).s
-			e.obligations++
+		// verifProvenance(out, what): byte-provenance obligation (see harness/api.go)
+		pp + "verifProvenance": func(e *Exec, a []Value) Value {
+			out := a[0].(Str)
+			what := a[1].(Str).s
 			cond := tTrue
 			for i := 0; i < out.Len(); i++ {
 				b := out.At(i)
@@ -65,7 +57,6 @@ func init() {
 					cond = And(cond, Not(Eq(b, Const(8, uint64(c)))))
 				}
 			}
-			e.obligations--
 			e.assertTerm(cond, what)
 			return nil
 		},
